@@ -206,14 +206,18 @@ package state
 //@ func (ws *worldStateImpl) getAccountSnapshotWithKey(key) (s)
 //@   trusted
 //@   pure
+// (acct_touched: the account state last reset or cleared)
+//@ smt all (declare-ghost acct_touched Iface)
 //@ func (a AccountState) Reset(snapshot) (err)
 //@   iface
 //@   trusted
 //@   modifies *
+//@   opt ghost:acct_touched a
 //@ func (a AccountState) Clear()
 //@   iface
 //@   trusted
 //@   modifies *
+//@   opt ghost:acct_touched a
 //@ func (ws *worldStateImpl) Reset(isnapshot) (err)
 //@   arith int
 //@   nosafety
@@ -227,6 +231,7 @@ package state
 //@   callpre AccountState.Reset: snapshot == value && value != nil && a == caller_as
 //@   callpre AccountState.Clear: value == nil && a == caller_as
 //@   loop 0: invariant ghost(mfo_reset_to) == as(ptr_worldSnapshotImpl, isnapshot).accounts
+//@   loop 0: step ghost(acct_touched) == as
 //@   loop 0: step (value != nil ==> hasmap(ws.lastAccounts)[ids] && valmap(ws.lastAccounts)[ids] == value) && (value == nil ==> !hasmap(ws.lastAccounts)[ids])
 
 // taking a world snapshot flushes the account cache first, so that the snapshot of the account trie
@@ -282,3 +287,22 @@ package state
 //@   callpre objectGraph.Resolve: bd == caller_bd
 //@   ensures [contracts] err == nil ==> (s.curContract != nil ==> ghost(rs_done)[s.curContract]) && (s.nextContract != nil ==> ghost(rs_done)[s.nextContract])
 //@   ensures [object_graph] err == nil ==> (s.objGraph != nil ==> ghost(rs_done)[s.objGraph])
+
+// ---------------------------------------------------------------------------
+// C16: the BTP state's change marker: every addition to the set of modified networks marks the state
+// changed (otherwise a roll-back to the last snapshot is skipped as "nothing changed" and the mark of
+// a failed transaction survives)
+// ---------------------------------------------------------------------------
+//@ property C16
+//@ func (bs *BTPStateImpl) markDirty()
+//@   arith int
+//@   requires bs != nil
+//@   modifies bs.last
+//@   ensures [dirty] bs.last == nil
+//@ func (bs *BTPStateImpl) setNetworkModified(nid)
+//@   arith int
+//@   nosafety
+//@   requires bs != nil
+//@   modifies bs.nwModified, bs.nwModified[*], allelems(bool), bs.last
+//@   ensures [marked] bs.nwModified != nil && hasmap(bs.nwModified)[nid] && valmap(bs.nwModified)[nid]
+//@   ensures [dirty_when_new] !(old(bs.nwModified) != nil && old(hasmap(bs.nwModified)[nid]) && old(valmap(bs.nwModified)[nid])) ==> bs.last == nil
